@@ -48,14 +48,14 @@ func (s Sort) String() string {
 }
 
 type Term struct {
-	id   int
-	op   string // "const","var","app:<fname>", smt op name, "extract:h:l","zext:n","sext:n"
-	args []*Term
-	sort Sort
-	val  *big.Int // for const (BV, Int, Bool: 0/1)
-	name string   // for var / uf name
-	hasBound bool // contains a quantifier-bound variable (never hoisted into define-fun)
-	bound    bool // is a bound variable
+	id       int
+	op       string // "const","var","app:<fname>", smt op name, "extract:h:l","zext:n","sext:n"
+	args     []*Term
+	sort     Sort
+	val      *big.Int // for const (BV, Int, Bool: 0/1)
+	name     string   // for var / uf name
+	hasBound bool     // contains a quantifier-bound variable (never hoisted into define-fun)
+	bound    bool     // is a bound variable
 }
 
 type FunDecl struct {
